@@ -4,22 +4,24 @@ PROP = dict(
         extra_overlay={
             'kernel/kfmt/zz_verif_c16_export.go': 'kfmt/c16_export.go',
             'kernel/device/zz_verif_c16_export.go': 'device/c16_export.go',
+            'kernel/device/tty/zz_verif_c18_export.go': 'tty/c18_export.go',
         },
         n=dict(quick=300, thorough=6000),
         nontrivial=r'^(detect [1-9]|w \d [0-9a-f]|rd [1-9]\d* \| [1-9]|pw [0-9a-f])',
         rule='one evaluation = one operation on the real code (a log write through kfmt, a ringBuffer.Read, a SetOutputSink, '
-             'a PrefixWriter.Write, or one whole hal.DetectHardware over 0-40 mock drivers registered through device.RegisterDriver, or the end-of-case dump of what every '
+             'a PrefixWriter.Write, or one whole hal.DetectHardware over 0-40 drivers (mocks and the shipped tty.VT) registered through device.RegisterDriver, or the end-of-case dump of what every '
              'mock TTY received), replayed through the Lean model; distinct = by hash of (op, observation); non-trivial = a '
              'non-empty write, a read that returned bytes, or a DetectHardware with at least one driver',
         trusted=['sort.Sort enters the model as a parameter assumed to return an order-sorted permutation (the oracle checks it on every case)',
                  'io.Copy is modelled as Read-until-EOF with a 32 KiB buffer writing every chunk (theorems hold for every positive buffer size)',
                  'kfmt.Fprintf of the three fixed hal format strings is modelled by its specified output, one Write per byte (C15 covers the formatter)',
-                 'mock consoles/TTYs (the real tty.VT / consoles are the subject of C17-C19); export shims harness/kfmt/c16_export.go, harness/device/c16_export.go'],
+                 'mock TTYs in most cases; in the others the shipped tty.VT behind a call-recording wrapper over a grid-recording mock console, '
+                 'judged against the reference terminal of C17 (Spec/Term.lean) fed with the expected byte stream; the shipped consoles are C18/C19; export shims harness/kfmt/c16_export.go, harness/device/c16_export.go'],
         assumptions=['sequential use (device bring-up is single-threaded)',
                      'sinks accept every Write completely, as the ring buffer and the TTYs do',
                      'consoles without FontSetter/LogoSetter (font/logo selection is outside the property)'],
         level_text='Lean theorems (ring_is_last_N, ring_writes_then_drain, prefix_lines, probe_order, failed_never_active, first_wins, '
-                   'linked_both_orders, log_exactly_once, link_moment; generic in the compiled power-of-two ringBufferSize) hold for every driver set, registration order, failing subset and every amount/chunking of log '
+                   'linked_both_orders, attached_once, log_exactly_once, link_moment, terminal_shows_log; generic in the compiled power-of-two ringBufferSize) hold for every driver set, registration order, failing subset and every amount/chunking of log '
                    'output; the model is tied to the Go code by regenerated constants (ringBufferSize, DetectOrder values) and a '
                    'differential run of the real hal/kfmt code against the model with the property oracle on the real observations.',
         level_note='Trusted: Lean kernel (+ propext, Classical.choice, Quot.sound), the theorem statements, the harness and mock drivers '
